@@ -2,6 +2,7 @@ from propdefs.common import *
 
 PROP = {
     "bin": "c08",
+    "minimize": True,   # harness implements `--only i --keep p0,p1,..` (notes/minimisation.md)
     "coq_targets": ["theories/Mem/C08Check", "theories/Mem/C08CheckE"],
     "n": {"quick": 2000, "thorough": 30000},
     "theorems": ["inv_preserved", "abs_store", "abs_load", "reject_bad_width", "eq_refl_clone", "eq_implies_same_loads",
